@@ -278,6 +278,21 @@ def run(ctx):
                         bad8.append("quit without one of the documented reasons: " + pathx.show_events([e for e in q.ev if e[0] == "branch"])[-200:])
                 elif why:
                     bad8.append("reason %s does not lead to a quit" % why)
+            # what `quit(action)` does: first time graceful with the configured stop signal / timeout, second time forced, afterwards abort
+            qcl = [c for c in facts.children(h) if c.kind == "closure" and any(t.callee.is_("Handler::quit_gracefully") for _, t in c.calls())]
+            qrows = []
+            if len(qcl) == 1:
+                for q in pathx.Enum(interesting=lambda d_: strip_generics(d_).endswith(("Handler::quit", "Handler::quit_gracefully", "fetch_add"))).paths(thir.root(qcl[0])):
+                    arm = [e[2][0] for e in q.ev if e[0] == "arm"]
+                    cl_ = [(strip_generics(e[1]).split("::")[-1], [pathx.desc(a) for a in e[2]["a"]]) for e in q.ev if e[0] == "call" and not strip_generics(e[1]).endswith("fetch_add")]
+                    cnt = [[pathx.desc(a) for a in e[2]["a"]] for e in q.ev if e[0] == "call" and strip_generics(e[1]).endswith("fetch_add")]
+                    qrows.append((arm[0] if arm else None, cl_, cnt, q.val))
+            wantq = [("0", [("quit_gracefully", ["action", "Option::unwrap_or(^stop_signal, Terminate)", "^stop_timeout"])], [["^quit_again", "1", "Relaxed"]], "action"),
+                     ("1", [("quit_gracefully", ["action", "ForceStop", "ZERO"])], [["^quit_again", "1", "Relaxed"]], "action"),
+                     ("_", [("quit", ["action"])], [["^quit_again", "1", "Relaxed"]], "action")]
+            ctx.require(sorted(qrows, key=str) == sorted(wantq, key=str), "R08.5", "cli-quit-escalation",
+                        "quit(action): 1st request graceful (stop signal or SIGTERM, stop timeout), 2nd forced (ForceStop, 0), later ones abort; the action is returned", h.loc(h.line),
+                        detail=str(qrows)[:400], fail="the CLI's quit closure no longer escalates graceful -> forced -> abort with the configured signal and timeout: %s" % str(qrows)[:300])
             eofc = [c for c in facts.children(h) if c.kind == "closure" and pathx.desc(thir.peel(thir.root(c))) == "slice::contains(e.tags, Keyboard{0: Eof})"]
             ctx.require(not bad8 and n_q >= 3 and len(eofc) == 1, "R08.5", "cli-quit-reasons", "the CLI handler quits exactly for: --once (debug), --stdin-quit with a keyboard EOF, "
                         "an unmapped interrupt/terminate", h.loc(h.line), detail="; ".join(bad8)[:400] + " eof-closures=%d" % len(eofc),
